@@ -57,6 +57,7 @@ type Spec struct {
 	NotCovered    []string            `json:"not_covered"`
 	Stubs         []string            `json:"stubs"`
 	NoopPkgs      []string            `json:"noop_pkgs"`
+	TermOpts      []string            `json:"term_opts"` // optional term rewrites: linsum, boundlemmas
 	Level         string              `json:"level"`
 }
 
@@ -284,6 +285,7 @@ func cmdCheck(args []string) int {
 	if !ok {
 		fatal(2, "spec has no tier %s", *tier)
 	}
+	setTermOpts(spec.TermOpts)
 	fillDefaults(&ts)
 
 	eng, err := loadEngine(&spec)
